@@ -397,7 +397,7 @@ func genReq(t *rapid.T, fs []FieldSpec, allowInvalid bool) (ReqSpec, bool) {
 				if allowInvalid && s != "json" && f.Shape != "slice" && f.kind != reflect.String && rapid.IntRange(0, 11).Draw(t, "invalid") == 0 {
 					texts = append(texts, invalidText(t, f.kind))
 					invalid = true
-				} else if f.kind == reflect.String && f.Default == "" && (s == "form" || s == "query" || s == "json" || s == "path") && rapid.IntRange(0, 5).Draw(t, "emptyText") == 0 {
+				} else if f.kind == reflect.String && f.Default == "" && (s == "form" || s == "query" || s == "json" || s == "path") && rapid.IntRange(0, map[bool]int{true: 1, false: 5}[s == "path"]).Draw(t, "emptyText") == 0 {
 					texts = append(texts, "") // present with an empty value ("k=", an empty multipart part, "k":"")
 				} else {
 					texts = append(texts, validText(t, f.kind))
